@@ -74,3 +74,68 @@ def extra_units():
         w.prop = PROP
         out.append(w)
     return out
+
+
+# ------------------------------------------------------------------------------ assignReads over a history of calls (bounded)
+# The per-call contracts above say what one call does.  That a call's answer does not depend on the calls before it (other
+# contigs with other lengths, other window settings - anything a module-level table could remember) is a two-call property the
+# per-call contracts cannot express; it is checked here on the real code over an exhaustive small domain, in one process.
+def assign_history(tier, seed):
+    import collections
+    import itertools
+    import json
+    import os
+    import types
+    import pysam
+    from pyvc import bamreplay as B
+    from pyvc.contract import import_real
+    assign = import_real(F1, 'assignReads')
+    lengths = {'chrA': 10, 'chrB': 7}
+    header = pysam.AlignmentHeader.from_dict({'HD': {'VN': '1.6'}, 'SQ': [{'SN': c, 'LN': n} for c, n in lengths.items()]})
+    history, n = [], 0
+    for b, sl, keep in itertools.product((3, 4), (None, 1, 2, 3), (False, True)):
+        if sl is not None and sl > b:
+            continue
+        s = sl if sl is not None else b
+        for ds, order in itertools.product(range(0, 12), (('chrA', 'chrB'), ('chrB', 'chrA'))):
+            for contig in order:
+                seg = B.make_segment(header, {'query_sequence': 'ACGT', 'cigartuples': [(0, 4)], 'reference_start': 1, 'reference_end': 5,
+                                              'mapping_quality': 60, 'tags': {'SM': 'cell', 'DS': ds}}, contig, 'q')
+                args = types.SimpleNamespace(
+                    r1only=False, r2only=False, doNotDivideFragments=True, divideMultimapping=False, byValue=None, splitFeatures=False,
+                    featureDelimiter=',', bedfile=None, bin=b, binTag='DS', sliding=s, keepOverBounds=keep, ref_lengths=dict(lengths),
+                    filterMP=False, minMQ=0, proper_pairs_only=False, no_indels=False, max_base_edits=None, no_softclips=False,
+                    filterXA=False, dedup=False, blacklist=None, filterRT=False, contig=None) 
+                table = collections.defaultdict(collections.Counter)
+                call = {'contig': contig, 'DS': ds, 'bin': b, 'sliding': s, 'keepOverBounds': keep}
+                try:
+                    assign(seg, table, args, True, ['reference_name', 'DS'], ['SM'], [], None)
+                    got = {str(k): v for k, v in table.get(('cell',), {}).items() if v}
+                except Exception as e:      # noqa: BLE001
+                    got = '%s: %s' % (type(e).__name__, e)
+                L = lengths[contig]
+                want = {}
+                lo = -((b // s) + 2) * s
+                for w0 in range(lo, ds + s, s):
+                    if w0 % s == 0 and w0 <= ds < w0 + b and (keep or (w0 >= 0 and w0 + b <= L)):
+                        want[str((contig, w0, w0 + b))] = 1
+                n += 1
+                history.append(call)
+                if got != want:
+                    out = os.environ.get('VERIF_OUT', '.')
+                    os.makedirs(os.path.join(out, 'replays', PROP), exist_ok=True)
+                    path = 'replays/%s/assignReads_history.json' % PROP
+                    json.dump({'property': PROP, 'obligation': '%s/assignReads[history of calls]' % PROP,
+                               'replay': {'status': 'confirmed', 'failing_call': call, 'observed': got, 'expected': want,
+                                          'calls_before_it_in_this_process': history[-6:-1], 'number_of_calls_before': n - 1}},
+                              open(os.path.join(out, path), 'w'), indent=1)
+                    return {'result': 'violation', 'replay': path, 'confirmed': True, 'calls': n, 'failing_call': call}
+    return {'result': 'clean', 'calls': n}
+
+
+from pyvc.units import Bounded      # noqa: E402
+UNITS.append(Bounded(PROP, 'assignReads[history of calls: two contigs of different length, bins 3-4, sliding 1-3, coordinates 0-11]',
+                     assign_history,
+                     'real assignReads, 2 contigs (10 and 7 bases) x bin 3,4 x sliding none,1,2,3 x keepOverBounds x coordinate 0..11 '
+                     'x both contig orders, all in one process; expected windows from the property statement',
+                     'exhaustive run of the real function against the specification'))
